@@ -50,7 +50,7 @@ def make_case(cid, sf, sg, n, m, p, k, rng, order="dfs"):
         {"op": "clone", "name": "h", "src": "f"},
         {"op": "export", "tree": "f"},
         {"op": "export", "tree": "g"},
-        {"op": "compose", "tree": "h", "other": "g", "prune": False},
+        {"op": "compose", "tree": "h", "other": "g", "prune": False, "verbose": rng.random() < 0.25},
         {"op": "export", "tree": "h"},
     ]
     meta = {"k": k, "sf": repr(sf), "sg": repr(sg), "dims": [n, m, p], "apply_func": False}
